@@ -425,3 +425,5 @@ func (w *World) funcsIn(rels ...string) []*FuncRef {
 	}
 	return out
 }
+
+func readFile(path string) ([]byte, error) { return os.ReadFile(path) }
